@@ -6,9 +6,81 @@ package main
 func init() {
 	consumerShapes = append(consumerShapes, typePositionShapes...)
 	rangeShapes = append(rangeShapes, rangeShapes7...)
+	rangeShapes = append(rangeShapes, scopingShapes...)
 	bystanderShapes = append(bystanderShapes, bystanderShapes7...)
 	injections = append(injections, injections7...)
 	closureInGeneratorShapes = append(closureInGeneratorShapes, closureInGeneratorShapes7...)
+}
+
+// scopingShapes: hand-written scoping programs of C03 (appended to the scoping table; C04 runs them as range shapes too)
+var scopingShapes = []shape{
+	// the iteration variable of a range over an integer is a fresh variable per iteration (:=) / is assigned from a hidden
+	// counter (=): writing it in the body never changes the iteration, closures keep the value of their iteration
+	{name: "integer-range-variable-written-and-captured", decls: `
+$GEN{$NG(a int)}{int}{
+	for i := range 6 {
+		$YIELD{i}
+		i++
+	}
+	var fs []func() int
+	for i := range 3 {
+		fs = append(fs, func() int { return i })
+		$YIELD{i}
+		i += 7
+	}
+	for _, f := range fs {
+		$YIELD{10 + f()}
+	}
+	for i := range a + 2 {
+		i += 5
+		$YIELD{i}
+	}
+	const n = 2
+	var j int
+	for j = range n {
+		$YIELD{j}
+		j += 10
+	}
+	$YIELD{j}
+	var k int8
+	for k = range 3 {
+		k *= 2
+		tr.Ev(1, int(k))
+	}
+	$YIELD{int(k)}
+	$RET
+}`, entries: []*Entry{drive("$NG", "int", 1, [][]int{{0}, {2}})}},
+	{name: "collection-range-variables-written-and-captured", decls: `
+$GEN{$NG(a int)}{int}{
+	xs := []int{a, a + 1, a + 2}
+	var ps []*int
+	for i, v := range xs {
+		ps = append(ps, &v)
+		v += 100
+		i += 5
+		$YIELD{v + i}
+	}
+	for _, p := range ps {
+		$YIELD{*p}
+	}
+	var fs []func() string
+	for i, c := range "héy" {
+		fs = append(fs, func() string { return string(c) + "ab"[i%2:] })
+		c++
+		$YIELD{int(c)}
+	}
+	for _, f := range fs {
+		$YIELD{len(f())}
+	}
+	m := map[string]int{"k": a}
+	for k, v := range m {
+		k += "x"
+		v++
+		$YIELD{len(k) + v}
+	}
+	$YIELD{m["k"]}
+	$RET
+}`, entries: []*Entry{drive("$NG", "int", 1, [][]int{{0}, {2}})}},
 }
 
 var typePositionShapes = []shape{
